@@ -1,16 +1,17 @@
 (* C05 -- Only credentials the auth back-end accepts authenticate, as exactly that user.
    Only statements; each closed by `exact` of a lemma from Proofs/, followed by Print Assumptions.
    Gen/LoginMapGen.v and Gen/GateSkelGen.v are REGENERATED from the repository on every run (tie T;
-   lemmas Gen_map_login_eq, Gen_gate_skeleton_eq in Proofs/C05GenEq.v); the models Model/Gate.v and
+   lemmas Gen_map_login_eq in Proofs/C05GenEq.v and Gen_gate_skeleton_eq in Proofs/C05GenEqGate.v, the
+   latter compiled separately by checks/C05.py); the models Model/Gate.v and
    Model/Htpasswd.v are tied to the code by the correspondence runs of checks/C05.py (tie K).
    All external parties -- str.lower/str.upper, base64 + charset decoding, the auth back-end, the
    handlers, the storage's and rights back-end's answers about the principal collection, the hash
    functions of passlib/bcrypt -- are universally quantified function arguments, never axioms. *)
 From Coq Require Import List NArith ZArith Bool.
 Import ListNotations.
-Require Import RV.Lib.PyStr RV.Model.Path RV.Model.C05Text RV.Model.LoginMap RV.Model.Gate RV.Model.Htpasswd.
-Require Import RV.Proofs.C05Gate RV.Proofs.C05GateEx RV.Proofs.C05Htpasswd RV.Proofs.C05HtpasswdEx RV.Proofs.C05GenEq.
-Require RV.Gen.LoginMapGen RV.Gen.GateSkelGen.
+Require Import RV.Lib.PyStr RV.Model.Path RV.Model.C05Text RV.Model.LoginMap RV.Model.Gate RV.Model.Htpasswd RV.Model.C05Compose.
+Require Import RV.Proofs.C05Gate RV.Proofs.C05GateEx RV.Proofs.C05Htpasswd RV.Proofs.C05HtpasswdEx RV.Proofs.C05GenEq RV.Proofs.C05Compose.
+Require RV.Gen.LoginMapGen.
 Open Scope N_scope.
 
 (* ---------------------------------------------------------------------------------------------
@@ -220,6 +221,24 @@ Print Assumptions C05_htpasswd_cache.
 Print Assumptions C05_htpasswd_cache_hit.
 Print Assumptions C05_htpasswd_init.
 Print Assumptions C05_htpasswd_no_crash.
+
+(* End to end, auth type htpasswd (cache off): a handler runs as u <> "" only if u is the mapped login, a safe
+   name, and the file as it is now has an entry for u whose non-empty digest verifies the presented password. *)
+Theorem C05_gate_htpasswd :
+  forall py_lower py_upper basic_decode handler home_exists rights_w create_fails ext_verify
+         hcfg st t sz mt cfg env m bp p u,
+    c_kind cfg = AOther -> h_cache hcfg = false -> flags_ok hcfg st ->
+    In (EDispatch m bp p u)
+       (r_effects (gate py_lower py_upper basic_decode (ht_backend ext_verify hcfg st (present t sz mt))
+                        handler home_exists rights_w create_fails cfg env)) ->
+    u <> [] ->
+    exists ext l pw h,
+      creds basic_decode cfg env = CCreds ext l pw /\ l <> [] /\
+      u = mapped py_lower py_upper cfg l /\ is_safe_path_component u = true /\
+      first_entry (h_has_bcrypt st) (file_lines t) u = Some h /\ h <> [] /\
+      verify_as ext_verify (detect (h_enc hcfg) h) h pw = VTrue.
+Proof. exact c05_gate_htpasswd. Qed.
+Print Assumptions C05_gate_htpasswd.
 
 (* Defect F10, regression witness: with the PINNED tree's start-up (init_with false) the last two theorems
    fail -- a bcrypt entry added after start-up makes the right password raise (AttributeError -> 500). *)
